@@ -95,6 +95,10 @@ Proof. vm_cast_no_check (eq_refl true). Qed.
 Definition crust_pk := hx32 0x46ebddef8cd9bb167dc30878d7113b7e168e6f0646beffd77d69d39bad76b47a.
 Definition crust_msg : list byte := Eval vm_compute in String.list_byte_of_string "this is a message"%string.
 Definition crust_sig := hx64 0x4e172314444b8f820bb54c22e95076f220ed25373e5c178234aa6c211d29271244b947e3ff3418ff6b45fd1df1140c8cbff69fc58ee6dc96df70936a2bb74b82.
+Example crust_vector_ref : sr25519_verify_ref crust_pk crust_msg crust_sig = true.
+Proof. vm_cast_no_check (eq_refl true). Qed.
+Example crust_vector_prefix : sr25519_verify_signature_prefix crust_pk crust_sig crust_msg = VOk.
+Proof. vm_cast_no_check (eq_refl VOk). Qed.
 Example crust_vector_deprecated : sr25519_verify_deprecated crust_pk crust_sig crust_msg = VOk.
 Proof. vm_cast_no_check (eq_refl VOk). Qed.
 Example crust_vector_tampered : sr25519_verify_signature crust_pk crust_sig (n2b 0 :: crust_msg) = VFail.
